@@ -35,8 +35,12 @@ DEFS = {
     'rl': (['p'], "ite(has(p, 'rank_lecturer'), p.rank_lecturer, 0)"),
 
     # ---- loads and "worst assignee" over an assignment list L (entry None = unassigned)   [parametric: see pyvc/engine.py]
-    'loadP': (['L', 'j'], 'Count(q, len(L), L[q] != None and L[q].project_index == j)', 'parametric'),
-    'loadL': (['L', 'k'], 'Count(q, len(L), L[q] != None and L[q].lecturer_index == k)', 'parametric'),
+    'loadP_upto': (['L', 'j', 'n'], 'Count(q, n, L[q] != None and L[q].project_index == j)', 'parametric'),
+    'loadL_upto': (['L', 'k', 'n'], 'Count(q, n, L[q] != None and L[q].lecturer_index == k)', 'parametric'),
+    'loadS_upto': (['L', 's', 'n'], 'Count(q, n, L[q] != None and L[q].student_index == s)', 'parametric'),
+    'loadP': (['L', 'j'], 'loadP_upto(L, j, len(L))'),
+    'loadL': (['L', 'k'], 'loadL_upto(L, k, len(L))'),
+    'loadS': (['L', 's'], 'loadS_upto(L, s, len(L))'),
     'someone_at_P': (['L', 'j'], 'exists(q, 0, len(L), L[q] != None and L[q].project_index == j)'),
     'someone_at_L': (['L', 'k'], 'exists(q, 0, len(L), L[q] != None and L[q].lecturer_index == k)'),
     'worse_at_P': (['L', 'j', 'r'], 'exists(q, 0, len(L), L[q] != None and L[q].project_index == j and L[q].rank_lecturer > r)'),
@@ -49,4 +53,17 @@ DEFS = {
         "     and ((a != None and a.lecturer_index == p.lecturer_index) or worse_at_L(L, p.lecturer_index, p.rank_lecturer)))"
         " or (loadP(L, p.project_index) >= m.proj_upper_quotas[p.project_index] and worse_at_P(L, p.project_index, p.rank_lecturer)))"),
     'two_sided': (['m'], "forall(i, 0, len(m.pairs), forall(c, 0, len(m.pairs[i]), has(m.pairs[i][c], 'rank_lecturer')))"),
+
+    # validity of a list L of matched pairs (DESIGN section 5); pc = project closures allowed
+    'valid_list': (['m', 'L', 'pc'],
+        "forall(s, 0, m.num_students, loadS(L, s) <= 1)"
+        " and forall(j, 0, m.num_projects, (pc and loadP(L, j) == 0) or (m.proj_lower_quotas[j] <= loadP(L, j) and loadP(L, j) <= m.proj_upper_quotas[j]))"
+        " and forall(k, 0, m.num_lecturers, m.lec_lower_quotas[k] <= loadL(L, k) and loadL(L, k) <= m.lec_upper_quotas[k])"),
+    # strict lexicographic comparisons of profiles
+    'more_greedy': (['a', 'b'], 'exists(i, 0, len(a), a[i] > b[i] and forall(j, 0, i, a[j] == b[j]))'),
+    'more_generous': (['a', 'b'], 'exists(i, 0, len(a), a[i] < b[i] and forall(j, i + 1, len(a), a[j] == b[j]))'),
+
+    'is_max_rank': (['m', 'r'], 'forall(i, 0, len(m.pairs), forall(c, 0, len(m.pairs[i]), m.pairs[i][c].rank_student <= r))'
+                                ' and (r == 0 or exists(i, 0, len(m.pairs), exists(c, 0, len(m.pairs[i]), m.pairs[i][c].rank_student == r)))'),
+    'all_found': (['L'], 'forall(q, 0, len(L), L[q] != None)'),
 }
